@@ -249,8 +249,10 @@ def gen_corr(ctx):
     meas_lays = [(ml, mc, mq) for ml in range(0, 4) for mc in range(0, 2) for mq in (0, 1) if not (mq == 1 and mc == 0) and dcov_of(ml, mc, mq) >= 1]
     for (dl, dc, q) in state_lays:
         for (ml, mc, mq) in meas_lays:
-            if ctx.tier != "thorough" and (dl + 2 * dc + 3 * q + ml + mc + mq) % 3 != ctx.seed % 3 and not (q or mq):
+            if ctx.tier != "thorough" and (dl + 2 * dc + 3 * q + ml + mc + mq) % 3 != ctx.seed % 3:
                 continue
+            if ctx.tier != "thorough" and (q or mq) and (dl + ml + dc) % 4 != ctx.seed % 4:
+                continue        # quaternion configurations abort (known findings): a sample is enough in the quick tier, each costs a process start
             K = 1 + (dl + ml) % 2
             tot, dof = dim_of(ml, mc, mq), dcov_of(ml, mc, mq)
             st = "%d %s %d %s" % (K, lay(dl, dc, q), K, lay(dl, dc, q))
@@ -265,6 +267,8 @@ def gen_corr(ctx):
                 for red in (0, 1):
                     rr = sub if red else M
                     out.append(("b_ukfc 2 %s %s %d %d" % (st, meas_tokens(dl, dc, q, rr, ml, mc, mq, tot, 0, tot, tot, rr), sub, red), "sukf"))
+    # the same corrections through a move-constructed object (checklist g), every 4th configuration
+    out += [("b_ukfcmv" + ln[len("b_ukfc"):], grp) for i, (ln, grp) in enumerate(list(out)) if i % 4 == ctx.seed % 4 and ln.startswith("b_ukfc ")]
     # perturbations around one valid Euclidean configuration (invalid side of the tie + early returns)
     base = dict(il=3, ic=0, iq=0, inn=2, ml=2, mc=0, mq=0, prows=2, dcols=0, irows=2, ysize=2, rr=2)
     for kind in (0, 1, 2):
@@ -499,6 +503,100 @@ def gen_sequences(ctx):
 GENERATORS.append(gen_sequences)
 
 
+def gen_filters(ctx):
+    """deepening round: LinearStateModel::propagate branches, KF/UKF/GPF predictions, DrawParticles, GaussianLikelihood,
+    BootstrapCorrection, GPFCorrection::correctStep, SIS (real thread), in-place calls (aliasing)"""
+    out = []
+    flags3 = [(a, b, c) for a in (0, 1) for b in (0, 1) for c in (0, 1)]
+    for fn in range(0, 4):
+        for (sS, hE, sE) in flags3:
+            for num in (0, 1, 3):
+                out.append(("b_linprop %d %d %d %d %d %d %d %d" % (fn, fn, num, fn, num, sS, hE, sE), "linprop"))
+            for (sr, pr, pc) in ((fn + 1, fn, 2), (fn, fn + 1, 2), (fn, fn, 3)):
+                out.append(("b_linprop %d %d 2 %d %d %d %d %d" % (fn, sr, pr, pc, sS, hE, sE), "linprop"))
+    for n in range(0, 4):
+        lays = [(n, 0, 0)] + ([(n - 1, 1, 0)] if n >= 1 else [])
+        for (dl, dc, q) in lays:
+            for K in (1, 2, 3):
+                for mode in (0, 1, 2, 3):
+                    for exo in (0, 1):
+                        for alias in (0, 1):
+                            out.append(("b_kfp %d %s %d %s %d %d %d %d" % (K, lay(dl, dc, q), K, lay(dl, dc, q), n, mode, exo, alias), "kfp"))
+                out.append(("b_gpfp %d %s %d %s %d" % (K, lay(dl, dc, q), K, lay(dl, dc, q), n), "gpfp"))
+            for mode in (0, 1, 2):
+                out.append(("b_kfp 2 %s 1 %s %d %d 1 0" % (lay(dl, dc, q), lay(dl, dc, q), n, mode), "kfp"))
+                out.append(("b_kfp 2 %s 3 %s %d %d 0 0" % (lay(dl, dc, q), lay(dl, dc, q), n, mode), "kfp"))
+                out.append(("b_kfp 2 %s 2 %s %d %d 0 0" % (lay(dl, dc, q), lay(dl + 1, dc, q), n, mode), "kfp"))
+                out.append(("b_kfp 2 %s 2 %s %d %d 1 0" % (lay(dl, dc, q), lay(dl, dc, q), n + 1, mode), "kfp"))
+            out.append(("b_gpfp 2 %s 3 %s %d" % (lay(dl, dc, q), lay(dl, dc, q), n), "gpfp"))
+            out.append(("b_gpfp 2 %s 2 %s %d" % (lay(dl, dc, q), lay(dl + 1, dc, q), n), "gpfp"))
+            out.append(("b_gpfp 2 %s 2 %s %d" % (lay(dl, dc, q), lay(dl, dc, q), n + 1), "gpfp"))
+    out.append(("b_kfp 2 0 1 1 2 0 1 1 4 0 0 0", "kfp"))
+    for (dl, dc, q) in LAYOUTS_SMALL:
+        dim, dcv = dim_of(dl, dc, q), dcov_of(dl, dc, q)
+        for K in (1, 2):
+            for qn in (1, 2):
+                for skip in (0, 1):
+                    out.append(("b_ukfp 0 %d %s  0 %d %s %d %d" % (K, lay(dl, dc, q), qn, lay(dl, dc, q), qn, skip), "ukfp_gen"))
+            out.append(("b_ukfp 0 %d %s  0 2 %s 3 0" % (K, lay(dl, dc, q), lay(dl, dc, q)), "ukfp_gen"))           # declared noise != covariance size
+            out.append(("b_ukfp 0 %d %s  0 2 %s 2 0" % (K, lay(dl, dc, q), lay(dl + 1, dc, q)), "ukfp_gen"))       # description of another layout
+            if dim >= 1:
+                for skip in (0, 1):
+                    out.append(("b_ukfp 1 %d %s  %d %d %s 0 %d" % (K, lay(dl, dc, q), dim, dim, lay(dl, dc, q), skip), "ukfp_add"))
+                out.append(("b_ukfp 1 %d %s  %d %d %s 0 0" % (K, lay(dl, dc, q), dim, dim + 1, lay(dl, dc, q)), "ukfp_add"))   # throws
+                out.append(("b_ukfp 1 %d %s  %d %d %s 0 0" % (K, lay(dl, dc, q), dim + 1, dim + 1, lay(dl, dc, q)), "ukfp_add"))
+    for d in (1, 2, 3):
+        n = 2 * d
+        for (dl, dc) in ((n, 0), (n - 1, 1)):
+            for N in range(0, 4):
+                for exo in (0, 1):
+                    out.append(("b_draw %d %d %d %d 0 %d %d %d 0 %d" % (d, N, dl, dc, N, dl, dc, exo), "draw"))
+            out.append(("b_draw %d 3 %d %d 0 2 %d %d 0 0" % (d, dl, dc, dl, dc), "draw"))
+            out.append(("b_draw %d 3 %d %d 0 3 %d %d 0 1" % (d, dl, dc, dl + 1, dc), "draw"))
+            out.append(("b_draw %d 3 %d %d 0 3 %d %d 0 0" % (d, dl + 1, dc, dl + 1, dc), "draw"))
+    for N in range(0, 4):
+        for (mv, pv, iv) in flags3:
+            out.append(("b_glik %d 4  %s" % (N, meas_tokens(4, 0, 0, 2, 2, 0, 0, 2, 0, 2, 2, 2, mv, pv, iv)), "glik"))
+            for (dl, dc, q) in ((4, 0, 0), (1, 1, 1), (2, 1, 0)):
+                for alias in (0, 1):
+                    out.append(("b_boot %d %s %d %s %d  %s" % (N, lay(dl, dc, q), N, lay(dl, dc, q), alias, meas_tokens(dl, dc, q, 2, 2, 0, 0, 2, 0, 2, 2, 2, mv, pv, iv)), "boot"))
+        out.append(("b_glik %d 4  %s" % (N, meas_tokens(4, 0, 0, 2, 2, 0, 0, 2, 0, 2, 2, 3)), "glik"))
+        out.append(("b_glik %d 4  %s" % (N, meas_tokens(4, 0, 0, 2, 2, 0, 0, 2, 1, 2, 2, 2)), "glik"))
+        out.append(("b_boot %d 4 0 0 1 1 0 0 0  %s" % (N, meas_tokens(4, 0, 0, 2, 2, 0, 0, 2, 0, 2, 2, 2)), "boot"))
+        out.append(("b_boot %d 4 0 0 %d 4 0 0 0  %s" % (N, N, meas_tokens(4, 0, 0, 2, 2, 0, 0, 2, 1, 2, 2, 2)), "boot"))
+        out.append(("b_boot %d 4 0 0 %d 4 0 0 0  %s" % (N, N, meas_tokens(4, 0, 0, 2, 2, 0, 0, 2, 0, 3, 2, 2)), "boot"))
+    for d in (1, 2, 3):
+        for N in (1, 2, 3):
+            for hm in (1, 2):
+                for mv in (0, 1):
+                    for alias in (0, 1):
+                        out.append(("b_gpfc %d %d %d %d %d %d %d" % (d, N, N, hm, hm, mv, alias), "gpfc"))
+            for mv in (0, 1):
+                out.append(("b_gpfc %d %d %d 2 2 %d 0" % (d, N, N + 1, mv), "gpfc"))
+                out.append(("b_gpfc %d %d %d 2 2 %d 0" % (d, N, max(N - 1, 0), mv), "gpfc"))
+                out.append(("b_gpfc %d %d %d 2 3 %d 0" % (d, N, N, mv), "gpfc"))
+                out.append(("b_gpfc %d %d %d 0 0 %d 0" % (d, N, N, mv), "gpfc"))
+    for d in (1, 2, 3):
+        n = 2 * d
+        for (lin, circ) in ((n, 0), (n - 1, 1)):
+            for (N, nx, ny) in ((1, 1, 1), (4, 2, 2), (6, 2, 3), (6, 3, 2), (5, 2, 2)):
+                for hm in (1, 2):
+                    for steps in ((0, 1, 2, 4) if ctx.tier == "thorough" else ((N + hm + d) % 3, 3)):
+                        out.append(("b_sis %d %d %d %d %d %d %d %d" % (N, lin, circ, d, nx, ny, hm, steps), "sis"))
+        out.append(("b_sis 4 %d 0 %d 2 2 2 3" % (n + 1, d), "sis"))        # state of another size than the motion model: aborts at the first prediction
+        out.append(("b_sis 4 %d 0 %d 2 2 2 1" % (n + 1, d), "sis"))        # … but not before
+        out.append(("b_sis 0 %d 0 %d 0 0 2 1" % (n, d), "sis"))
+    for (dl, dc, q) in LAYOUTS_SMALL:
+        for K in (0, 1, 2, 3):
+            out.append(("b_psaddself %d %s" % (K, lay(dl, dc, q)), "psaddself"))
+            if K >= 1:
+                out.append(("b_gmaugalias %d %s" % (K, lay(dl, dc, q)), "gmaugalias"))
+    return out
+
+
+GENERATORS.append(gen_filters)
+
+
 # --------------------------------------------------------------------------- running
 
 def par_harness(binary, lines, jobs=8):
@@ -573,7 +671,7 @@ def finding_key(line, group):
         if kind in (0, 1):
             return "ukf-quaternion-state" if (q and dc > 0) else ("ukf-quaternion-measurement" if (mq and mc > 0) else "ukf-call-sequence:abort-on-valid")
         return "sukf-quaternion-state" if (q and dc > 0) else "sukf-call-sequence:abort-on-valid"
-    if t[0] == "b_ukfc":
+    if t[0] in ("b_ukfc", "b_ukfcmv"):
         kind, q = int(t[1]), int(t[5])
         dc = int(t[4])
         mc, mq = int(t[15]), int(t[16])
@@ -586,6 +684,8 @@ def finding_key(line, group):
         if q and dc > 0:
             return "sukf-quaternion-state"
         return "sukf-correct:abort-on-valid"
+    if t[0] == "b_psaddself":
+        return "psadd-self-alias"
     return "%s:abort-on-valid" % group
 
 
@@ -670,7 +770,7 @@ def branch_tags(line, group, hk, hp):
                 tags.append("LinearModel:throw component out of bound")
             else:
                 tags.append("LinearModel:constructed")
-        elif t[0] == "b_ukfc":
+        elif t[0] in ("b_ukfc", "b_ukfcmv"):
             kind = int(t[1])
             mv, pv, iv = int(t[22]), int(t[23]), int(t[24])
             name = ("UKF generic", "UKF additive", "SUKF")[kind]
@@ -692,6 +792,19 @@ def branch_tags(line, group, hk, hp):
                 tags.append("getLikelihood:not available")
         elif group == "kf":
             tags.append("KF:update" if int(t[12]) else "KF:no measurement -> copy")
+        elif group == "linprop":
+            sS, hE, sE = int(t[6]), int(t[7]), int(t[8])
+            tags.append("LinearStateModel::propagate:" + ("all skipped -> copy" if sS and hE and sE else "F x + exogenous" if (not sS and hE and not sE) else
+                                                          "F x" if not sS else "exogenous only" if (hE and not sE) else "nothing written"))
+        elif group == "kfp":
+            tags.append("KFPrediction:skip mode %s%s%s" % (("none", "prediction", "state", "exogenous")[int(t[11])], " +exo" if int(t[12]) else "", " in place" if int(t[13]) else ""))
+        elif group in ("glik", "boot"):
+            mv, pv, iv = int(t[-3]), int(t[-2]), int(t[-1])
+            tags.append("GaussianLikelihood:" + ("no measurement" if not mv else "no prediction" if not pv else "no innovation" if not iv else "evaluated"))
+        elif group == "gpfc":
+            tags.append("GPFCorrection:" + ("weights updated" if int(t[6]) else "likelihood unavailable -> copy") + (" in place" if int(t[7]) else ""))
+        elif group == "sis":
+            tags.append("SIS:%d filtering step(s)" % int(t[8]))
         elif group in ("ukf_seq", "sukf_seq"):
             toks = hp.split()
             prev_ok = False
@@ -773,6 +886,10 @@ ENTRY = {
     "gpfsample": "GPFCorrection::sampleFromProposal", "wna_seq": "WhiteNoiseAcceleration::getNoiseSample/motion (call sequence on one object)",
     "lm_seq": "LinearModel::getNoiseSample (call sequence on one object)", "ukf_seq": "UKFCorrection::correct/getLikelihood (call sequence on one object)",
     "sukf_seq": "SUKFCorrection::correct/getLikelihood (call sequence on one object)",
+    "linprop": "LinearStateModel::propagate", "kfp": "KFPrediction::predict", "gpfp": "GPFPrediction::predict", "ukfp_gen": "UKFPrediction::predict (generic)",
+    "ukfp_add": "UKFPrediction::predict (additive)", "draw": "DrawParticles::predict", "glik": "GaussianLikelihood::likelihood",
+    "boot": "BootstrapCorrection::correct/getLikelihood", "gpfc": "GPFCorrection::correct", "sis": "SIS (initialisation + filtering steps, real thread)",
+    "psaddself": "ParticleSet::operator+= (a += a)", "gmaugalias": "GaussianMixture::augmentWithNoise(own covariance block)",
 }
 
 
